@@ -1,4 +1,4 @@
-"""Scale stream shared by C03 / C13: configurations with N ≈ 1 000 – 2 000 particles and coarse bins, so that per-particle,
+"""Scale stream shared by C03 / C13: configurations with N ≈ 2 000 particles and coarse bins, so that per-particle,
 per-bin counts exceed 127 / 255 (narrow integer dtypes), accumulators hold ~10⁶ pairs and every bin is populated.
 
 The exact-ℚ Lean model cannot run at this size inside a check's budget; these cases are judged against the vectorised numpy
@@ -11,10 +11,10 @@ import numpy as np
 
 
 def gen_scale_params(rng, K=2):
-    N = rng.choice([1100, 1300, 1500, 1700])
-    L = rng.choice(["8", "8.5", "9"])
-    return {"scale": True, "sseed": rng.randint(0, 10 ** 9), "N": N, "d": 3, "L": L,
-            "rdelta": rng.choice(["0.5", "0.4"]), "K": K}
+    # density ≥ 3.5 and shells ≥ 88 volume units in the outer bins: > 255 neighbours j > i of the first particles in one bin
+    N = rng.choice([1800, 2000, 2200])
+    return {"scale": True, "sseed": rng.randint(0, 10 ** 9), "N": N, "d": 3, "L": "8",
+            "rdelta": rng.choice(["0.5", "0.8"]), "K": K}
 
 
 def scale_arrays(p):
@@ -59,3 +59,30 @@ def pair_hist(pos, L, delta, maxbin, wi=None, wj=None, chunk=256):
         tot += h
         wsum += hw
     return tot, wsum, margin
+
+
+def pair_hists(pos, L, delta, maxbin, wpairs, chunk=256):
+    """like pair_hist for several weight pairs [(wi, wj), ...] in one pass over the distances:
+    (count per bin, [Σ wi_i·wj_j per bin for each pair], margin)"""
+    N, d = pos.shape
+    edges = np.arange(maxbin + 1) * delta
+    tot = np.zeros(maxbin)
+    wsums = [np.zeros(maxbin) for _ in wpairs]
+    margin = np.inf
+    for s in range(0, N, chunk):
+        diff = pos[None, :, :] - pos[s:s + chunk, None, :]
+        diff -= np.rint(diff / L) * L
+        dist = np.sqrt((diff ** 2).sum(axis=2))
+        idx = np.arange(s, min(s + chunk, N))
+        dist[idx - s, idx] = np.inf
+        keep = dist <= edges[-1]
+        flat = dist[keep]
+        if flat.size:
+            margin = min(margin, float(np.min(np.abs(flat[:, None] - edges[None, :]))))
+        h, _ = np.histogram(flat, bins=edges)
+        tot += h
+        for n, (wi, wj) in enumerate(wpairs):
+            w = (np.asarray(wi, dtype=float)[s:s + chunk, None] * np.asarray(wj, dtype=float)[None, :])[keep]
+            hw, _ = np.histogram(flat, bins=edges, weights=w)
+            wsums[n] += hw
+    return tot, wsums, margin
